@@ -218,7 +218,7 @@ PROPS = {
                 "constructor grid thread_pool_size in {None, -7..1000} x cpu_count in {1, 2, 8, 64, NotImplementedError} on both kinds",
     },
     "C01": {
-        "lean": ["AriVerif.Props.C01"],
+        "lean": ["AriVerif.Props.C01", "AriVerif.Conc.DataProj"],
         "gen": [],
         "streams": [s_conc.data_stream(["C01"], "data-cosim"), s_conc.data_fine_stream(["C01"])],
         "trusted": [KERNEL, HARNESS, "the scheduler shim (harness/shim.py): Lock/RLock, Queue, Event, Thread, ThreadPoolExecutor (FIFO work queue, <= n running), scripted socket, virtual clock; line-level preemption via sys.settrace in the fine-grained streams",
